@@ -625,16 +625,16 @@ Section Proofs.
     destruct (stream_spec total s inp Hinv Hbound) as (s2 & H2 & Hi2).
     exists s1, s2, (xor_list inp (ks_range total (length inp))).
     split; [exact H1|]. split; [exact H2|]. split; [|split; assumption].
-    destruct inp as [|x inp].
-    - (* nothing to do: both return the state unchanged *)
-      cbn in H1, H2. unfold stream_aesni, stream, pre_whole in H1, H2.
-      destruct Hinv as (_ & Hb & _).
-      destruct (negb (bytectr s mod 16 =? 0)) eqn:Hm.
-      + cbn in H1, H2. inversion H1. inversion H2. subst.
-        unfold st_obs_eq. cbn [bytectr buf pblk]. splits; reflexivity.
-      + cbn in H1, H2. inversion H1. inversion H2. subst. unfold st_obs_eq. splits; reflexivity.
-    - apply (ctr_inv_obs (total + N.of_nat (length (x :: inp)))); try assumption.
-      cbn [length]. lia.
+    destruct (N.eq_dec (total + N.of_nat (length inp)) 0) as [Hz | Hnz].
+    - (* no byte since init2 and nothing to do: both return the state unchanged *)
+      assert (total = 0) by lia. subst total.
+      destruct inp; [|cbn [length] in Hz; lia].
+      destruct Hinv as (_ & Hb & _). destruct s as [b bf p]. cbn [bytectr] in Hb. subst b.
+      assert (Ha : stream_aesni E (mkst 0 bf p) [] = Ok (mkst 0 bf p, [])) by reflexivity.
+      assert (Hp : stream E (mkst 0 bf p) [] = Ok (mkst 0 bf p, [])) by reflexivity.
+      rewrite Ha in H1. rewrite Hp in H2. inversion H1. inversion H2.
+      unfold st_obs_eq. splits; reflexivity.
+    - apply (ctr_inv_obs (total + N.of_nat (length inp))); assumption.
   Qed.
 
   (* ---------------------------------------------------------------- sequences of calls (M2) *)
